@@ -19,9 +19,9 @@ def expected_aff_from_file(K, L, assort, diag):
     return aff
 
 
-def make_case(rng, cid, wd, variant=None, defaults=False):
+def make_case(rng, cid, wd, variant=None, defaults=False, edges=None):
     directed, assort, from_init = variant if variant is not None else (rng.chance(0.5), rng.chance(0.5), rng.chance(0.5))
-    e = int_recs(rng)
+    e = edges if edges is not None else int_recs(rng)
     recs, L = e['recs'], e['L']
     N = len(gen.first_appearance(recs))
     K = rng.rint(2, 4)
